@@ -21,10 +21,14 @@ INSTS = {
     "exp_ii": ("expected", ["int", "int"], ["int", "shrt"], [], 4),
     "exp_ti": ("expected", ["trk", "int"], ["int", "trk"], [], 4),
     "exp_it": ("expected", ["int", "trk"], ["int", "trk"], [], 4),
+    # repeated alternative types (index, not type, decides): only index-based construction where a type is ambiguous
+    "var_tt": ("variant", ["trk", "trk"], ["trk", "int"], [], 5),
+    "var_iit": ("variant", ["int", "int", "trk"], ["int", "trk", "shrt"], [], 5),
+    "exp_tt": ("expected", ["trk", "trk"], ["trk", "int"], [], 5),
 }
-GROUPS = (1, 2, 3, 4)
+GROUPS = (1, 2, 3, 4, 5)
 # operations every implementation provides: the only ones used to *reach* a state (path prefixes)
-PATH_OPS = {"emplace", "ctor_inplace", "ctor_move", "ctor_default", "write_through"}
+PATH_OPS = {"emplace", "ctor_inplace", "ctor_move", "ctor_default", "write_through", "visit_mv", "deref_mv", "error_mv"}
 S0 = {"a": {"idx": 0, "val": 0}, "b": {"idx": 0, "val": 0}, "r": [1, 2]}
 
 
@@ -114,6 +118,8 @@ PROBES = {}
 for _k, _op in _REL.items():
     PROBES["VP_CMP_NULL_" + _k] = "(o %s etl::nullopt) + (r %s etl::nullopt) + (t %s etl::nullopt)" % (_op, _op, _op)
     PROBES["VP_CMP_NULL_R_" + _k] = "(etl::nullopt %s o) + (etl::nullopt %s r) + (etl::nullopt %s t)" % (_op, _op, _op)
+# converting construction of a variant with a repeated alternative type from a type that occurs once
+PROBES["VP_VARIANT_REPEAT_CONV"] = "(int)etl::variant<int, int, T>(T{1}).index()"
 
 
 def probes():
@@ -124,7 +130,7 @@ def probes():
     def one(item):
         name, expr = item
         src = os.path.join(d, name + ".cpp")
-        open(src, "w").write("#include <etl/optional.hpp>\nstruct T { int v; friend bool operator==(T, T) { return true; } "
+        open(src, "w").write("#include <etl/optional.hpp>\n#include <etl/variant.hpp>\nstruct T { int v; friend bool operator==(T, T) { return true; } "
                              "friend bool operator<(T, T) { return false; } };\n"
                              "int main() { etl::optional<int> o; etl::optional<int&> r; etl::optional<T> t; return (int)(%s); }\n" % expr)
         try:
@@ -146,7 +152,7 @@ def build_drivers(have, std=True):
         for g in GROUPS:
             jobs.append(dict(src="sum_driver.cpp", out="sum_std_g%d" % g, flags=["-DVH_GROUP=%d" % g, "-DVH_STD"],
                              std="c++23", include_repo=False))
-    paths = vlib.build_many(jobs, par=8)
+    paths = vlib.build_many(jobs, par=10)
     bins = {("etl", g): paths[i] for i, g in enumerate(GROUPS)}
     if std:
         bins.update({("std", g): paths[len(GROUPS) + i] for i, g in enumerate(GROUPS)})
